@@ -76,7 +76,7 @@ var EnumFamilies = []*EnumFamily{
 		Prefixes: []string{""}, Suffixes: []string{"\r\nX"}, Cfgs: tokCfgs([]int{0, 1, 2, 8})},
 	{Name: "cseq", Alpha: "a1 \t\r\n", LQ: 6, LT: 8,
 		Parsers:  []string{"ParseCSeqVal"},
-		Prefixes: []string{""}, Suffixes: []string{"\r\nX"}, Cfgs: []Cfg{DefCfg}, JunkStarts: true},
+		Prefixes: []string{"", "0000000004", "429496729"}, Suffixes: []string{"\r\nX"}, Cfgs: []Cfg{DefCfg}, JunkStarts: true},
 	{Name: "uint", Alpha: "a1 \t\r\n", LQ: 6, LT: 8,
 		Parsers:  []string{"ParseUIntVal", "ParseCLenVal", "ParseExpiresVal"},
 		Prefixes: []string{"", "1677721", "429496729"}, Suffixes: []string{"\r\nX"}, Cfgs: []Cfg{DefCfg}},
